@@ -130,4 +130,30 @@ theorem evidence_append' {α : Type} (old : List α) (news : List (List α)) :
     rw [ih]
     simp [updateEvidence, List.append_assoc]
 
+theorem rbf_kernel_grad' (v f a c x : ℝ) :
+    HasDerivAt (fun y => rbfK Real.exp v f ((y - a) * (y - a) + c))
+      (rbfDk x a f (rbfK Real.exp v f ((x - a) * (x - a) + c))) x := by
+  have h2 : (2.0 : ℝ) = 2 := by norm_num
+  have hsub : HasDerivAt (fun y : ℝ => y - a) 1 x := (hasDerivAt_id x).sub_const a
+  have hr2 : HasDerivAt (fun y : ℝ => (y - a) * (y - a) + c) (1 * (x - a) + (x - a) * 1) x :=
+    (hsub.mul hsub).add_const c
+  have hin : HasDerivAt (fun y : ℝ => ((y - a) * (y - a) + c) * f) ((1 * (x - a) + (x - a) * 1) * f) x :=
+    hr2.mul_const f
+  have hexp := (Real.hasDerivAt_exp (((x - a) * (x - a) + c) * f)).comp x hin
+  have hfin := hexp.const_mul v
+  unfold rbfK rbfDk
+  simp only [h2]
+  have hval : v * (Real.exp (((x - a) * (x - a) + c) * f) * ((1 * (x - a) + (x - a) * 1) * f)) =
+      2 * f * (x - a) * (v * Real.exp (((x - a) * (x - a) + c) * f)) := by ring
+  rw [← hval]
+  exact hfin
+
+theorem fast_mean_grad' {n : Nat} (k : ℝ → Fin n → ℝ) (dk α : Fin n → ℝ) (x : ℝ)
+    (hk : ∀ i, HasDerivAt (fun y => k y i) (dk i) x) :
+    HasDerivAt (fun y => (k y) ⬝ᵥ α) (dk ⬝ᵥ α) x := by
+  unfold dotProduct
+  have := HasDerivAt.fun_sum (u := Finset.univ) (A := fun i y => k y i * α i) (A' := fun i => dk i * α i)
+    (fun i _ => (hk i).mul_const (α i))
+  simpa using this
+
 end ElfiVerif.Bolfi
